@@ -189,6 +189,8 @@ def _ctx_class():
             key = json.dumps(cmd)
             self.calls.append(key)
             rc, text = self.outputs[key]
+            if isinstance(text, Exception):
+                raise text
             return (rc, text) if keep_rc else text
 
         def connect(self, *args, **kwargs):
@@ -500,9 +502,19 @@ def check(case):
             pass
         broker = dr.Broker()
         broker[ctx.__class__] = ctx
-        h = Hydration(out, ctx)
-        broker.add_observer(h.make_persister(set(comps)))
-        dr.run(list(comps), broker=broker)
+        pool = None
+        if case.get("pool"):
+            # collection with `run_strategy: parallel` persists the elements of a multi-output spec on a pool
+            from concurrent.futures import ThreadPoolExecutor
+            pool = ThreadPoolExecutor(int(case["pool"]))
+            labels.add("persist-on-pool")
+        try:
+            h = Hydration(out, ctx, pool=pool)
+            broker.add_observer(h.make_persister(set(comps)))
+            dr.run(list(comps), broker=broker)
+        finally:
+            if pool is not None:
+                pool.shutdown(wait=True)
 
         meta_root = os.path.join(out, "meta_data")
         data_root = os.path.join(out, "data")
@@ -796,9 +808,24 @@ _tag = st.text(st.sampled_from(list("abcxyz019_")), min_size=0, max_size=5)
 _via = st.sampled_from(["hydrate", "hydrate", "initialize_broker"])
 
 
+def _with_pool(case, pool):
+    if pool:
+        case["pool"] = pool
+        for cd in case["comps"]:
+            if cd.get("multi") and len(cd["items"]) >= 2:
+                it = cd["items"][0]          # a slow first element: on a pool it finishes after the others
+                if it["kind"] == "raw":
+                    it["raw"] = it.get("raw") or [120, 10]
+                    it["rep"] = 200000
+                else:
+                    it["lines"] = [[u"slow ", 131073]] * 6
+    return case
+
+
 def strat_roundtrip(tier):
-    return st.builds(lambda tag, via, comps: {"tag": tag, "via": via, "comps": comps, "faults": []},
-                     _tag, _via, st.lists(_comp(tier, True, 12), min_size=1, max_size=4))
+    return st.builds(lambda tag, via, comps, pool: _with_pool({"tag": tag, "via": via, "comps": comps, "faults": []}, pool),
+                     _tag, _via, st.lists(_comp(tier, True, 12), min_size=1, max_size=4),
+                     st.sampled_from([0, 0, 0, 2, 4]))
 
 
 @st.composite
@@ -818,7 +845,118 @@ def strat_faults(tier):
     return _fault_case(tier)
 
 
+def check_errors(case):
+    """A spec whose first implementation failed during evaluation (the error is recorded against the
+    spec) while the fallback's command only fails when it is read at persist time: the persisted entry
+    has to carry *all* its errors."""
+    from insights.core import dr
+    from insights.core.exceptions import ContentException, CalledProcessError
+    from insights.core.plugins import datasource
+    from insights.core.serde import Hydration
+    from insights.core.spec_factory import SpecSet, RegistryPoint, first_of, CommandOutputProvider
+
+    ctx_cls = _ctx_class()
+    uid = "e%s" % case.get("tag", "")
+    tmp = tempfile.mkdtemp(prefix="%s%d-" % (TMP_PREFIX, os.getpid()))
+    root = os.path.join(tmp, "host")
+    out = os.path.join(tmp, "out")
+    os.makedirs(root)
+    os.makedirs(out)
+    mod = types.ModuleType(SYNTH)
+    prev_mod = sys.modules.get(SYNTH)
+    sys.modules[SYNTH] = mod
+    prev_disable = logging.root.manager.disable
+    logging.disable(logging.CRITICAL)
+    cache_keys = _cache_keys()
+    comps, names = [], set()
+    try:
+        outputs = {}
+        ctx = ctx_cls(root, outputs)
+        eval_faults = list(case["eval_faults"])
+        made = []
+
+        def failing(kind, k):
+            def body(broker):
+                if kind == "content":
+                    raise ContentException("evalfail%d missing file" % k)
+                raise CalledProcessError(3, "evalfail%d cmd" % k)
+            body.__name__ = body.__qualname__ = "fail%d_%s" % (k, uid)
+            body.__module__ = SYNTH
+            setattr(mod, body.__name__, body)
+            return datasource(ctx_cls)(body)
+        fails = [failing(kind, k) for k, kind in enumerate(eval_faults)]
+        cmd = "/bin/echo persistfail %s" % uid
+        ser = case["ser_fault"]
+        outputs[json.dumps([shlex.split(cmd)])] = (
+            0, CalledProcessError(2, cmd, "serfail output") if ser == "cpe" else
+            (OSError("serfail gone") if ser == "oserror" else u"fine line\n"))
+
+        def fallback(broker):
+            p = CommandOutputProvider(cmd, broker[ctx_cls], ds=fallback)
+            made.append(p)
+            return [p] if case.get("multi") else p
+        fallback.__name__ = fallback.__qualname__ = "fallback_%s" % uid
+        fallback.__module__ = SYNTH
+        setattr(mod, fallback.__name__, fallback)
+        fb = datasource(ctx_cls, multi_output=bool(case.get("multi")))(fallback)
+        reg = type("ErrSpecs_%s" % uid, (SpecSet,), {"__module__": SYNTH,
+                                                    "sp": RegistryPoint(multi_output=bool(case.get("multi")))})
+        impl_ds = first_of(fails + [fb])
+        impl = type("ErrImpl_%s" % uid, (reg,), {"__module__": SYNTH, "sp": impl_ds})
+        setattr(mod, reg.__name__, reg)
+        setattr(mod, impl.__name__, impl)
+        sp = reg.sp
+        comps = fails + [fb, impl_ds, sp]
+        names = set(dr.get_name(c) for c in comps)
+        broker = dr.Broker()
+        broker[ctx_cls] = ctx
+        h = Hydration(out, ctx)
+        broker.add_observer(h.make_persister(set([sp])))
+        dr.run(dr.get_dependency_graph(sp), broker=broker)
+        recorded = [type(e).__name__ for e in broker.exceptions.get(sp, [])]
+        meta = os.path.join(out, "meta_data")
+        docs = []
+        for fn in (os.listdir(meta) if os.path.isdir(meta) else []):
+            with open(os.path.join(meta, fn)) as f:
+                docs.append(json.load(f))
+        docs = [d for d in docs if d.get("name") == dr.get_name(sp)]
+        if len(docs) != 1:
+            raise Violation("the spec was evaluated during collection but %d metadata entries were persisted for it"
+                            % len(docs))
+        errs = docs[0].get("errors") or []
+        want = ["evalfail%d" % k for k in range(len(eval_faults))] + (["serfail"] if ser != "none" else [])
+        for w in want:
+            if not any(isinstance(e, str) and w in e and "Traceback" in e for e in errs):
+                raise Violation("the persisted entry of a spec that failed lost one of its errors: no traceback "
+                                "mentioning %r among the %d persisted error(s)" % (w, len(errs)),
+                                persisted=[e[-160:] for e in errs if isinstance(e, str)], recorded_before_persist=recorded)
+        if ser != "none" and docs[0].get("results"):
+            raise Violation("a spec whose only element could not be serialised is persisted with results",
+                            results=docs[0].get("results"))
+        return {"nontrivial": bool(eval_faults) and ser != "none",
+                "labels": ["eval-errors=%d" % len(eval_faults), "ser=" + ser, "multi" if case.get("multi") else "single"]}
+    finally:
+        logging.disable(prev_disable)
+        try:
+            _unregister(comps, names, cache_keys)
+        finally:
+            if prev_mod is None:
+                sys.modules.pop(SYNTH, None)
+            else:
+                sys.modules[SYNTH] = prev_mod
+            shutil.rmtree(tmp, ignore_errors=True)
+
+
+def strat_errors(tier):
+    return st.fixed_dictionaries({"tag": _tag, "multi": st.booleans(),
+                                  "eval_faults": st.lists(st.sampled_from(["content", "cpe"]), min_size=0, max_size=3),
+                                  "ser_fault": st.sampled_from(["cpe", "cpe", "oserror", "none"])})
+
+
 SUBS = [
+    Sub("errors", check_errors, strategy=strat_errors, quick=150, thorough=1500, workers_quick=2,
+        workers_thorough=8, budget_quick=20, budget_thorough=200,
+        doc="a spec with evaluation-time errors whose fallback fails at persist time keeps all its errors"),
     Sub("roundtrip", check, strategy=strat_roundtrip, quick=400, thorough=2500, workers_quick=4,
         workers_thorough=16, budget_quick=27, budget_thorough=280,
         doc="every provider kind x content x save_as, no damage: what was persisted is what is loaded"),
